@@ -135,7 +135,7 @@ func c13Middleware(c *Check, P string, m *MW) {
 		// filter: call of a func(error) bool value loaded from a field, on the error
 		var filterCalls []ssa.CallInstruction
 		for _, cl := range CallsIn(d) {
-			if cl.Common().IsInvoke() || cl.Common().StaticCallee() != nil {
+			if cl.Common().IsInvoke() || CalleeFn(cl.Common()) != nil {
 				continue
 			}
 			if cl.Common().Signature().String() == "func(err error) bool" || cl.Common().Signature().Results().Len() == 1 && cl.Common().Signature().Results().At(0).Type().String() == "bool" {
@@ -191,7 +191,7 @@ func c13Middleware(c *Check, P string, m *MW) {
 			c.Report(!InLoop(pc) && NoneReachableAfter(pc, pubs), P+".O2", "POISON-PUBLISH-ONCE", d, pc.Pos(), k, "at most one poison publish per invocation")
 			_, isGo := pc.(*ssa.Go)
 			c.Report(!isGo, P+".O2", "POISON-PUBLISH-SYNC", d, pc.Pos(), k, "the poison publish is synchronous (its result decides)")
-			H := pc.Common().StaticCallee()
+			H := CalleeFn(pc.Common())
 			if H != nil && !IsCallTo(pc, nPublish) {
 				c13Helper(c, P, m, d, pc, H, isErrLoad)
 			}
